@@ -571,11 +571,43 @@ def rule_end_of_input(ctx, cfg, r):
     if ok:
         r.ok(f.name, "mapping", "HAS_MORE_INPUT ? NeedsMoreInput : FailedCannotMakeProgress")
     # only origin of both statuses
+    extra_origin = set()
     for variant in ("NeedsMoreInput", "FailedCannotMakeProgress"):
         sites = [(g, bb, sp) for g, bb, sp in agg_sites(c, "inflate::TINFLStatus", variant)
                  if g.kind in ("fn", "assoc", "closure") and g.name.startswith("inflate::core") and g.id != f.id]
-        if sites:
-            r.fail(sites[0][0].name, "origin-" + variant, "TINFLStatus::%s is constructed outside end_of_input" % variant, sites[0][2])
+        bad_sites = []
+        for g_, bb_, sp_ in sites:
+            # a starvation status built elsewhere is accepted when every path of that function that returns it has found the input
+            # iterator empty and picks the status by the HAS_MORE_INPUT flag exactly as end_of_input does
+            owner = g_
+            while owner.kind == "closure" and owner.parent in c.fns:
+                owner = c.fns[owner.parent]
+            okk = True
+            seen_ = 0
+            try:
+                rows_o = paths.Evaluator(c, effects=ctx.effects(cfg), max_paths=4000).run(owner)
+            except Exception:
+                rows_o, okk = [], False
+            for x in rows_o:
+                if not (x.ret and paths.term_contains(x.ret, lambda y: y[0] == "enum" and y[2] == variant)):
+                    continue
+                seen_ += 1
+                bit_ = None
+                for k2, v2 in mask_tests(x).items():
+                    if k2[1] == HMI:
+                        bit_ = v2
+                exh = any(a_[0] == "discr" and s_.single() == 0 and paths.term_contains(a_, lambda y: y[0] in ("call", "pure") and str(y[1]).endswith("read_byte"))
+                          for a_, s_ in x.atoms)
+                if not exh or bit_ != (1 if variant == "NeedsMoreInput" else 0):
+                    okk = False
+            if not (okk and seen_):
+                bad_sites.append((g_, bb_, sp_))
+            else:
+                if (g_.id, bb_) not in extra_origin:
+                    r.ok(g_.name, "eoi-site", "starvation status built in place under input exhaustion and the HAS_MORE_INPUT mapping", sp_)
+                extra_origin.add((g_.id, bb_))
+        if bad_sites:
+            r.fail(bad_sites[0][0].name, "origin-" + variant, "TINFLStatus::%s is constructed outside end_of_input" % variant, bad_sites[0][2])
         else:
             r.ok(f.name, "origin-" + variant, "constructed only in end_of_input")
     # call sites are control dependent on input exhaustion
@@ -635,7 +667,7 @@ def rule_end_of_input(ctx, cfg, r):
             else:
                 r.fail(g.name, "eoi-site", "end_of_input is called on a path that does not establish input exhaustion: %s"
                        % [(tstr(a), repr(s)) for a, s in guards], t.get("sp"))
-    if n < 2:
+    if n + len({g for g, _ in extra_origin}) < 2:
         r.fail(f.name, "eoi-site-count", "%d call sites of end_of_input (reference tree: 2)" % n)
     # in the machine: every suspension on input carries the exhausted-input fact or comes from a reader helper
     for arm, x in all_rows(M):
@@ -797,6 +829,24 @@ def status_term(M):
     return ("unknown", "local0.%d" % M.status_local)
 
 
+
+def undo_event(x):
+    """The hand-back of whole look-ahead bytes on a row, whichever way it is written:
+       a call undo_bytes(&mut l, max)                      -> ('call', result term, max term, span)
+       the same arithmetic in place on l.num_bits            -> ('inline', min term k, M, None)   (nb - 8 * k, k = min(nb >> 3, M), for all nb)
+    or None."""
+    for e in x.effects:
+        if e[0] == "call" and e[1].endswith("inflate::core::undo_bytes"):
+            return ("call", call_res(e), e[2][1], e[3])
+    for k_, v in x.store.items():
+        if isinstance(k_, tuple) and k_ and k_[0] == "fld" and k_[2] == "num_bits" and k_[3].endswith("LocalVars") and isinstance(v, tuple):
+            for cand in {q for q in paths.subterms(v) if _is_nb_load(q)}:
+                iu = inline_undo(v, lambda q, cand=cand: q == cand)
+                if iu:
+                    return ("inline", iu[0], iu[1], None)
+    return None
+
+
 def rule_counts_and_undo(ctx, cfg, r4, r6):
     """R05.4 returned counts; R06.1 undo_bytes on every non-starved status."""
     M = machine(ctx, cfg)
@@ -810,7 +860,8 @@ def rule_counts_and_undo(ctx, cfg, r4, r6):
             r4.fail(fn, "epilogue-outcome", "epilogue path does not return: %s" % (x.outcome,))
             continue
         ops = tuple_ops(x.ret)
-        undo = calls_named(x, "inflate::core::undo_bytes")
+        uev = undo_event(x)
+        undo = [uev] if uev else []
         sv = vs(x, stt)
         starved = sv.subset_of(ISet.of(ST["NeedsMoreInput"], ST["FailedCannotMakeProgress"]))
         maybe_starved = sv.contains(ST["NeedsMoreInput"]) or sv.contains(ST["FailedCannotMakeProgress"])
@@ -822,13 +873,12 @@ def rule_counts_and_undo(ctx, cfg, r4, r6):
         elif not maybe_starved:
             okk = len(undo) == 1
             if okk:
-                a = undo[0][2]
-                consumed_arg = a[1]
+                consumed_arg = uev[2]
                 # max = (in_buf.len() - in_iter.bytes_left()) as u32
                 okk = paths.term_contains(consumed_arg, lambda y: y[0] == "bin" and y[1] == "Sub" and y[2][0] == "len" and
                                           y[3][0] == "pure" and y[3][1].endswith("InputWrapper::bytes_left"))
             if okk:
-                r6.ok(fn, "undo-non-starved", "undo_bytes(&mut l, consumed) on a non-starved status", undo[0][3])
+                r6.ok(fn, "undo-non-starved", "whole unread bytes handed back (min(num_bits / 8, consumed)) on a non-starved status", uev[3])
             else:
                 r6.fail(fn, "undo-non-starved", "a non-starved status returns without giving back whole unread bytes: %s" % x.describe(6))
         else:
@@ -843,7 +893,7 @@ def rule_counts_and_undo(ctx, cfg, r4, r6):
         def is_consumed(t):
             return t[0] == "bin" and t[1] == "Sub" and t[2][0] == "len" and t[3][0] == "pure" and t[3][1].endswith("InputWrapper::bytes_left")
         if undo:
-            res = call_res(undo[0])
+            res = uev[1]
             okin = cin[0] == "bin" and cin[1] == "Sub" and is_consumed(cin[2]) and (cin[3] == res or (cin[3][0] == "cast" and cin[3][1] == res))
         else:
             okin = is_consumed(cin) or (cin[0] == "bin" and cin[1] == "Sub" and is_consumed(cin[2]) and is_const(cin[3]) and const_val(cin[3]) == 0)
@@ -1063,7 +1113,9 @@ def rule_localvars(ctx, cfg, r):
             if name == "state":
                 good = v == ("unknown", "local0.%d" % M.state_local) or (v[0] == "enum")
             else:
-                good = v[0] == "load" and paths.place_is_field(v[1], name, "LocalVars")
+                # the value l.<name> has at that point: a load of the local's field, or what the path itself last assigned to it
+                lvals = [val_ for k_, val_ in x.store.items() if isinstance(k_, tuple) and k_ and k_[0] == "fld" and k_[2] == name and k_[3].endswith("LocalVars")]
+                good = (v[0] == "load" and paths.place_is_field(v[1], name, "LocalVars")) or (lvals and v == lvals[-1])
             if not good:
                 oks = False
                 r.fail(fn, "store-" + name, "r.%s is written back from %s instead of l.%s" % (name, tstr(v), name))
@@ -1589,7 +1641,7 @@ def rule_boundary(ctx, cfg, r):
         sv = vs(x, stt)
         if not sv.contains(ST["BlockBoundary"]):
             continue
-        undo = calls_named(x, "inflate::core::undo_bytes")
+        undo = [undo_event(x)] if undo_event(x) else []
         undo_ok = bool(undo) if undo_ok is None else (undo_ok and bool(undo))
         if sv.single() == ST["BlockBoundary"]:
             st = store_to_field(x, "state", "DecompressorOxide")
@@ -2137,7 +2189,7 @@ def rule_handback_mask(ctx, cfg, r):
     for x in epilogue_rows(ctx, cfg):
         if x.outcome[0] != "return":
             continue
-        un = [e for e in x.effects if e[0] == "call" and e[1].endswith("inflate::core::undo_bytes")]
+        un = undo_event(x)
         if not un:
             continue
         n += 1
@@ -2150,8 +2202,12 @@ def rule_handback_mask(ctx, cfg, r):
             why = "bit_buf is stored back as %s" % tstr(v)[:100]
             if ex:
                 cterm, nterm = uncast(ex[0]), uncast(ex[1])
-                good = cterm[0] == "load" and paths.place_is_field(cterm[1], "bit_buf") and nterm[0] == "load" and \
-                    paths.place_is_field(nterm[1], "num_bits") and nterm[2] >= 1
+                nbv = None
+                for k_, val_ in x.store.items():
+                    if isinstance(k_, tuple) and k_ and k_[0] == "fld" and k_[2] == "num_bits" and k_[3].endswith("LocalVars"):
+                        nbv = val_
+                good = cterm[0] == "load" and paths.place_is_field(cterm[1], "bit_buf") and \
+                    ((nterm[0] == "load" and paths.place_is_field(nterm[1], "num_bits") and nterm[2] >= 1) or (nbv is not None and nterm == uncast(nbv)))
         if good:
             r.ok(fn, "handback-mask/exit", "after undo_bytes the saved bit buffer is bit_buf & ((1 << num_bits) - 1) with the lowered num_bits")
         else:
